@@ -226,7 +226,8 @@ def _return_the_answer(ctx, ns):
 def _plain_answer(ctx, ns):
     from pyvc.values import SObj
     a = ns["answer"]
-    return isinstance(a, SObj) and "experimental_result_avp" not in a.idict and "session_id_avp" in a.idict
+    return isinstance(a, SObj) and isinstance(a.idict, dict) \
+        and "experimental_result_avp" not in a.idict and "session_id_avp" in a.idict
 
 
 @contract("bromelia.bromelia.decorate_answer", prop="C13", name="at-call")
